@@ -695,6 +695,14 @@ func (m *merge) evidence(id, tier string, seed int64, plan Plan, wall float64, v
 	if level == "" {
 		level = "exploration"
 	}
+	if level == "translation_validation" {
+		fails := 0
+		for _, e := range m.entries {
+			fails += e.Failures
+		}
+		cov["programs"] = m.evals
+		cov["disagreements_checked"] = fails
+	}
 	return map[string]any{
 		"property_id": id,
 		"tier":        tier,
